@@ -1,6 +1,5 @@
 def update(self, function):
     functions = [func for func in self._functions if func.stream == function.stream and func.function == function.function]
-    if functions:
-        for func in functions:
-            self._functions.remove(func)
+    for func in functions:
+        self._functions.remove(func)
     self._functions.append(function)
